@@ -8,7 +8,7 @@ Model/Determinism.lean; `C18_classified_loops_order_independent` ties the expect
 Part 3 (obligations over the facts regenerated from /repo on every run): every map-range site of the
 current tree is classified, nothing else in the inventory changed (`decide` over Facts/Generated.lean).
 A new, moved or edited loop breaks `C18_all_sites_covered`, and with it the check.
-Part 4: the one loop that is NOT order independent for all inputs (finding C18-opt-alias-collision).
+Part 4: record of the fixed finding C18-opt-alias-collision (the old loop model is order dependent).
 -/
 import TmVerif.Facts.Generated
 import TmVerif.Facts.ExpectC18
@@ -155,14 +155,6 @@ theorem C18_compilerAddTypes : Loop.compilerAddTypes.OrderIndependent := by
   intro τ typeOf xs ys hd h
   exact C18_point_updates_perm _ _ _ hd h
 
-/-- Conditional: needs distinctness AFTER renaming. See Part 4 for the failure without it. -/
-theorem C18_compilerCopyNames_partial : Loop.compilerCopyNames.OrderIndependent := by
-  intro rename xs ys hd h
-  exact C18_point_updates_perm _ _ _ hd h
-
-example : DistinctBy (fun e : String × List Nat => (fun k => if k == "aopt" then "a" else k) e.1)
-    [("a", [1]), ("bopt", [2])] := by decide
-
 theorem C18_compilerPopRuleNames : Loop.compilerPopRuleNames.OrderIndependent := by
   intro parent xs ys hd h
   exact C18_point_updates_perm _ _ _ hd h
@@ -236,7 +228,6 @@ theorem C18_shiftdfaPatterns : Loop.shiftdfaPatterns.OrderIndependent := by
 /-- The claim attached to a classification. -/
 def claim : SiteClass → Prop
   | .orderIndependent _ loop _ => loop.OrderIndependent
-  | .finding _ loop _ _ => loop.OrderIndependent
   | .outsideProperty _ => True
 
 /-- Every loop model is order independent (under the hypotheses spelled out in `Loop.OrderIndependent`). -/
@@ -249,7 +240,6 @@ theorem C18_every_loop_order_independent : ∀ l : Loop, l.OrderIndependent
   | .grammarActionVarsString => C18_grammarActionVarsString
   | .compilerMayBeMissing => C18_compilerMayBeMissing
   | .compilerAddTypes => C18_compilerAddTypes
-  | .compilerCopyNames => C18_compilerCopyNames_partial
   | .compilerPopRuleNames => C18_compilerPopRuleNames
   | .lexerInlineCustom => C18_lexerInlineCustom
   | .lexerTokenComments => C18_lexerTokenComments
@@ -264,7 +254,6 @@ theorem C18_classified_loops_order_independent : ∀ e ∈ siteExpectations, cla
   intro e _
   cases h : e.cls with
   | orderIndependent _ l _ => exact C18_every_loop_order_independent l
-  | finding _ l _ _ => exact C18_every_loop_order_independent l
   | outsideProperty _ => trivial
 
 /-! ## Part 3: obligations over the regenerated facts -/
@@ -297,17 +286,22 @@ theorem C18_global_writes_expected :
 statistics code. -/
 theorem C18_time_sites_expected : ∀ c ∈ timeSites, c ∈ timeExpectations.map Prod.fst := by decide
 
-/-! ## Part 4: the loop that is not order independent -/
+/-! ## Part 4: the fixed finding C18-opt-alias-collision (record)
 
-/-- The statement one would like for compiler/syntax.go `convertPart`: order independence for every
-enumeration of a map (distinct keys BEFORE renaming). It is false. -/
-def C18_compilerCopyNames_full : Prop :=
+Until /repo commit af67537 compiler/syntax.go `convertPart` copied `rhs.names` into `args.Names` inside the
+map-range loop, trimming the opt suffix of the key. With `aliasIncludesOptSuffix = false` a rule naming both
+`a` and `aopt` wrote both to `a`, and the generated action code for `$a` depended on the map order
+(parser.go differed between runs of the witness grammar, now part of the harness's pool). The loop now only
+collects the keys, which are sorted before use (`sortedKeys`). -/
+
+/-- Order independence of the OLD loop for every enumeration of a map (distinct keys before renaming). False. -/
+def C18_compilerCopyNames_old_loop_full : Prop :=
   ∀ (rename : String → String) (xs ys : List (String × List Nat)), DistinctBy Prod.fst xs →
-    xs.Perm ys → compilerCopyNames rename xs = compilerCopyNames rename ys
+    xs.Perm ys → compilerCopyNamesOld rename xs = compilerCopyNamesOld rename ys
 
-/-- Witness (rule `S: a aopt 'z' { … $a … }` with `aliasIncludesOptSuffix = false`): names `a ↦ [1]`,
-`aopt ↦ [2]`, the suffix `opt` is trimmed; the two enumeration orders give `a ↦ [2]` resp. `a ↦ [1]`. -/
-theorem C18_compilerCopyNames_order_dependent : ¬ C18_compilerCopyNames_full := by
+/-- Witness (rule `S: a aopt 'z' { … $a … }`): names `a ↦ [1]`, `aopt ↦ [2]`, suffix `opt` trimmed; the two
+enumeration orders give `a ↦ [2]` resp. `a ↦ [1]`. -/
+theorem C18_compilerCopyNames_old_loop_order_dependent : ¬ C18_compilerCopyNames_old_loop_full := by
   intro h
   have := h (fun k => if k == "aopt" then "a" else k) [("a", [1]), ("aopt", [2])] [("aopt", [2]), ("a", [1])]
     (by decide) (List.Perm.swap ..)
